@@ -457,3 +457,358 @@ func witnesses(seed uint64) []histSpec {
 	out = append(out, h)
 	return out
 }
+
+// ---------------------------------------------------------------- histories with blocks and delayed transactions
+
+// hgen: a generator that also tracks the header it has scripted so far
+type hgen struct {
+	*gen
+	h, bt, now int64 // offsets of the scripted header: height (absolute), block time and clock (relative)
+	inBlock    map[int]bool
+	delayed    map[int]bool
+}
+
+func newHGen(r *hlib.Rng, h *histSpec) *hgen {
+	return &hgen{gen: newGen(r, h), h: h.Height, inBlock: map[int]bool{}, delayed: map[int]bool{}}
+}
+
+func (g *hgen) add(s subSpec) int {
+	g.gen.h.Subs = append(g.gen.h.Subs, s)
+	return len(g.gen.h.Subs) - 1
+}
+
+// block: the header moves to height bh, block time +dbt, clock +dnow
+func (g *hgen) block(bh, dbt, dnow int64, btxs []int, commits ...subSpec) int {
+	g.bt += dbt
+	g.now += dnow
+	if bh > g.h {
+		g.h = bh
+	}
+	for _, i := range btxs {
+		g.inBlock[i] = true
+	}
+	return g.add(subSpec{Kind: "block", BH: bh, BBT: g.bt, BNow: g.now, BTxs: btxs, Commits: commits})
+}
+
+func delayed(s subSpec, mode string, off int64) subSpec {
+	s.Op, s.EndMode, s.EndOff = "delay", mode, off
+	return s
+}
+
+func commit(s subSpec, rt, rh int64) subSpec {
+	s.RelTime, s.RelH = rt, rh
+	return s
+}
+
+func withExec(s subSpec, execs ...string) subSpec {
+	for i := range s.Txs {
+		s.Txs[i].Exec = execs[i%len(execs)]
+	}
+	return s
+}
+
+func withTo(s subSpec, k int, to string) subSpec {
+	s.Txs[k].To = to
+	return s
+}
+
+func withExp(s subSpec, k int, mode string, off int64) subSpec {
+	s.Txs[k].ExpMode, s.Txs[k].ExpOff = mode, off
+	return s
+}
+
+// paraTitles: groups whose members name parachain titles, on a main-chain node and on the node of
+// user.p.test., with ForkTxGroupPara active from the start or reached by a block in the middle
+func paraTitles(seed uint64) []histSpec {
+	var out []histSpec
+	idx := 0
+	for _, para := range []bool{false, true} {
+		for _, fork := range []int64{0, 13} {
+			h := baseHist("para-titles", seed, idx)
+			idx++
+			h.Para, h.PerSender, h.Cap = para, 100, 100
+			h.Forks.ParaFork = fork
+			r := hlib.NewRng(seed*31 + uint64(idx))
+			g := newHGen(r, &h)
+			own := "paraA"
+			if !para {
+				own = "main"
+			}
+			shapes := [][]string{{own, own}, {"paraA", "paraA"}, {"paraA", "paraB"}, {"paraA", "main"}, {"paraA", "notitle"},
+				{"paraA", "paraA", "paraB"}, {"paraA", "main", "paraA"}, {"paraA", "notitle", "paraA", "main"}}
+			if !para {
+				shapes = append(shapes, []string{"main", "paraA"}, []string{"notitle", "main"}, []string{"paraB", "paraB"},
+					[]string{"notitle", "notitle"}, []string{"main", "paraB", "paraA"})
+			}
+			round := func() {
+				for _, sh := range shapes {
+					g.add(withExec(g.group(len(sh), r.Intn(3), 1, 2), sh...))
+				}
+				g.add(withExec(g.plain(r.Intn(3)), own))
+				if !para {
+					g.add(withExec(g.plain(r.Intn(3)), "paraB"))
+					g.add(withExec(g.plain(r.Intn(3)), "notitle"))
+				}
+			}
+			round()
+			if fork > 0 {
+				g.block(fork-2, 3, 2, nil) // next height = fork-1: still before the fork
+				g.add(withExec(g.group(2, 0, 1), "paraA", "main"))
+				g.block(fork-1, 3, 2, nil) // next height = fork
+				round()
+			}
+			if para {
+				// the first member is not this parachain's: the whole group is forwarded (finding 1)
+				g.add(withExec(g.group(2, 0, 1), "paraB", "paraA"))
+				g.add(withExec(g.group(2, 0, 1), "main", "paraA"))
+			}
+			out = append(out, h)
+		}
+	}
+	return out
+}
+
+// realTo: coins transfers whose payload names the recipient, as plain transactions and as group members, on a
+// parachain node (GetRealToAddr reads the payload) and on a main-chain node (it does not)
+func realTo(seed uint64) []histSpec {
+	var out []histSpec
+	for i, para := range []bool{true, false} {
+		h := baseHist("realto", seed, i)
+		h.Para, h.PerSender, h.Cap = para, 100, 100
+		r := hlib.NewRng(seed*37 + uint64(i))
+		g := newHGen(r, &h)
+		for _, to := range []string{"realok", "realblocked", "realsame", "realsameblocked", "blocked", "evmok", "evmpara"} {
+			g.add(withTo(g.plain(r.Intn(3)), 0, to))
+			for _, k := range []int{0, 1, 2} {
+				g.add(withTo(g.group(3, r.Intn(3), 1, 2), k, to))
+			}
+			// the same transactions as delayed ones: refused at the door only for what the wrapper itself shows
+			g.add(delayed(withTo(g.plain(r.Intn(3)), 0, to), "bt", 5))
+			g.add(delayed(withTo(g.group(2, r.Intn(3), 1), 1, to), "bt", 6))
+		}
+		g.add(delayed(g.plain(kBlocked), "bt", 5))
+		g.block(h.Height+1, 10, 3, nil)
+		out = append(out, h)
+	}
+	return out
+}
+
+// headerScenario: transactions at the edges of every header-dependent rule, submitted before and after the
+// block that moves the header across the edge (both directions), with the fork gates inside the history
+func headerScenario(seed uint64) []histSpec {
+	var out []histSpec
+	for i, minfee := range []int64{100000, 0} {
+		h := baseHist("header", seed, i)
+		h.MinFee, h.PerSender, h.Cap = minfee, 100, 100
+		h.Height = 610
+		h.Forks = forkSpec{Strict: 614, BlockCheck: 614, TxHeight: 614 * int64(i), ParaFork: 614}
+		r := hlib.NewRng(seed*41 + uint64(i))
+		g := newHGen(r, &h)
+		probes := func() []int {
+			var ids []int
+			p := func(s subSpec) { ids = append(ids, g.add(s)) }
+			p(withExp(g.plain(0), 0, "height", 1)) // Expire = 612
+			p(withExp(g.plain(1), 0, "height", 2)) // 613
+			p(withExp(g.group(2, 2, 0), 1, "height", 2))
+			p(withExp(g.plain(0), 0, "bt", 4))
+			p(withExp(g.plain(1), 0, "bt", 9))
+			p(withExp(g.plain(2), 0, "now", 63))
+			p(withExp(g.plain(0), 0, "txheight", 203))  // window opens at height 614 = 611 + 203 - 200
+			p(withExp(g.plain(1), 0, "txheight", -598)) // window closes after height 613 = 611 - 598 + 600
+			s := g.group(2, 0, 1)
+			s.Txs[1].ChainBad = true
+			p(s)
+			s = g.plain(2)
+			s.Txs[0].ChainBad = true
+			p(s)
+			s = g.plain(0)
+			g.applyTx(&s, 0, "feehigh")
+			p(s)
+			p(withExec(g.group(2, 1, 2), "paraA", "main"))
+			return ids
+		}
+		first := probes()
+		g.block(611, 4, 2, nil) // next 612: Expire = 612 is swept
+		g.block(609, 1, 0, nil) // stale: the header stays, the clock and the release window move
+		probes()
+		g.block(612, 5, 2, first[:2]) // block time +10 in total; carries two pooled transactions
+		for _, j := range first {
+			g.add(subSpec{Kind: "ref", Ref: j})
+		}
+		g.block(613, 1, 1, nil) // next 614: every fork gate opens, the TxHeight window of probe 7 opens, probe 8's closes
+		probes()
+		for _, j := range first[6:] {
+			g.add(subSpec{Kind: "ref", Ref: j})
+		}
+		out = append(out, h)
+	}
+	return out
+}
+
+// delayScenario: the delay cache (capacity = half the pool's) filled through EventAddDelayTx and through blocks,
+// released by block time and by height, in the cache's order, against per-sender limit and capacity
+func delayScenario(seed uint64) []histSpec {
+	var out []histSpec
+	for i := 0; i < 2; i++ {
+		h := baseHist("delay", seed, i)
+		h.PerSender, h.Cap = 2, 8
+		h.Height = 20
+		r := hlib.NewRng(seed*43 + uint64(i))
+		g := newHGen(r, &h)
+		a := g.add(delayed(g.plain(0), "bt", 7))
+		g.add(delayed(g.plain(0), "bt", 3))
+		g.add(delayed(g.plain(0), "height", 22)) // third of sender 0: over the limit when its turn comes
+		g.add(delayed(g.group(2, 1, 2), "bt", 7))
+		g.add(delayed(g.plain(2), "bt", 30)) // cache full (4)
+		g.add(subSpec{Kind: "ref", Ref: a, Op: "delay", EndMode: "bt", EndOff: 9})
+		g.add(subSpec{Kind: "nil", Op: "delay", EndOff: 5})
+		g.add(subSpec{Kind: "baddata", Op: "delay"})
+		g.add(delayed(g.plain(kBlocked), "bt", 3))
+		g.add(delayed(withTo(g.plain(1), 0, "blocked"), "bt", 3))
+		x := g.add(g.plain(1))
+		g.block(21, 5, 1, nil) // releases block time +3
+		g.block(22, 5, 1, []int{x}, commit(g.plain(1), 0, 0), commit(g.plain(2), 4, 0), commit(withTo(g.plain(2), 0, "blocked"), 0, 1),
+			commit(withExp(g.plain(1), 0, "height", 3), 0, 2)) // releases +7 (two entries), height 22, and its own first commit
+		g.add(delayed(withExp(g.plain(2), 0, "bt", 12), "bt", 13)) // expired when released
+		bad := g.plain(2)
+		bad.Txs[0].SigMode = "flip"
+		g.add(delayed(bad, "bt", 13))
+		low := g.plain(2)
+		low.Txs[0].FeeDelta = -1
+		g.add(delayed(low, "height", 23))
+		g.block(22, 2, 1, nil) // not higher: the header stays, block time +12 releases nothing new but +11..+12
+		g.block(23, 3, 1, nil)
+		g.block(24, 3, 1, nil)
+		if i == 1 {
+			g.block(0, 3, 1, nil)
+			g.block(30, 40, 5, nil)
+		}
+		out = append(out, h)
+	}
+	// a delayed transaction with a negative fee under a zero minimum rate enters through the release (finding 3)
+	h := baseHist("witness-delayed-negfee", seed, 0)
+	h.MinFee = 0
+	g := newHGen(hlib.NewRng(9), &h)
+	s := g.plain(0)
+	neg := int64(-5000)
+	s.Txs[0].FeeAbs = &neg
+	g.add(delayed(s, "bt", 2))
+	g.add(g.plain(1))
+	g.block(h.Height+1, 4, 1, nil)
+	out = append(out, h)
+	return out
+}
+
+// movingHist: random histories of EventTx, EventAddDelayTx and EventAddBlock messages with fork gates inside the
+// range of heights; every submission satisfies the three guards
+func movingHist(stream string, seed uint64, index int, thorough bool) histSpec {
+	r := hlib.NewRng(seed*1000033 + uint64(index)*7927 + 5)
+	h := baseHist(stream, seed, index)
+	h.Para = r.Chance(1, 5)
+	h.MaxTxNum = hlib.Pick(r, []int{10, 20, 10000})
+	h.MinFee = hlib.Pick(r, []int64{0, 1000, 100000})
+	h.Level = r.Chance(1, 3)
+	h.MaxRate = hlib.Pick(r, []int64{10000000, h.MinFee * 10, h.MinFee * 100})
+	h.PerSender = int64(r.Range(1, 3))
+	h.Cap = int64(r.Range(4, 12))
+	h.DisableExec = r.Chance(1, 6)
+	h.Height = int64(hlib.Pick(r, []int{1, 5, 30, 605}))
+	h.BtBack = int64(r.Range(0, 50))
+	h.Nonces = [2]int64{int64(r.Range(0, 3)), int64(r.Range(0, 5))}
+	fk := func() int64 { return hlib.Pick(r, []int64{0, 0, h.Height + 2, h.Height + 3, h.Height + 5, 1 << 40}) }
+	h.Forks = forkSpec{Strict: fk(), BlockCheck: fk(), TxHeight: fk(), ParaFork: fk()}
+	g := newHGen(r, &h)
+	n := r.Range(10, 18)
+	if thorough {
+		n = r.Range(10, 30)
+	}
+	edge := func(t *txSpec) { // expiry near where the header is going
+		switch r.Intn(7) {
+		case 0:
+			t.ExpMode, t.ExpOff = "height", int64(r.Range(0, 5))
+		case 1:
+			t.ExpMode, t.ExpOff = "bt", int64(r.Range(1, 40))
+		case 2:
+			t.ExpMode, t.ExpOff = "now", int64(r.Range(55, 100))
+		case 3:
+			t.ExpMode, t.ExpOff = "txheight", int64(hlib.Pick(r, []int{200, 201, 202, 204, -600, -599, -598}))
+		}
+	}
+	mk := func() subSpec {
+		s := g.randSub(false)
+		for s.Kind == "nil" {
+			s = g.randSub(false)
+		}
+		if s.Kind == "plain" || s.Kind == "group" {
+			for i := range s.Txs {
+				if s.Txs[i].ExpMode == "" && r.Chance(1, 2) {
+					edge(&s.Txs[i])
+				}
+				if r.Chance(1, 12) {
+					s.Txs[i].To = hlib.Pick(r, []string{"realok", "realblocked", "realsame"})
+				}
+			}
+			if s.Kind == "group" && r.Chance(1, 5) {
+				ex := []string{"paraA", "main", "paraB", "notitle"}
+				for i := 1; i < len(s.Txs); i++ {
+					s.Txs[i].Exec = hlib.Pick(r, ex)
+				}
+				if !h.Para {
+					s.Txs[0].Exec = hlib.Pick(r, ex)
+				}
+			}
+		}
+		return s
+	}
+	for i := 0; i < n; i++ {
+		switch x := r.Intn(100); {
+		case x < 50:
+			g.add(mk())
+		case x < 58 && i > 0:
+			j := r.Intn(len(h.Subs))
+			if k := h.Subs[j].Kind; k != "ref" && k != "block" && h.Subs[j].Op == "" && !g.delayed[j] {
+				g.add(subSpec{Kind: "ref", Ref: j})
+			}
+		case x < 74:
+			s := mk()
+			if s.Kind != "plain" && s.Kind != "group" {
+				s = g.plain(r.Intn(3))
+			}
+			if r.Chance(1, 2) {
+				g.add(delayed(s, "bt", g.bt+int64(r.Range(0, 25))))
+			} else {
+				g.add(delayed(s, "height", g.h+int64(r.Range(0, 3))))
+			}
+		case x < 78 && i > 0:
+			j := r.Intn(len(h.Subs))
+			if k := h.Subs[j].Kind; (k == "plain" || k == "group") && !g.inBlock[j] {
+				g.delayed[j] = true
+				g.add(subSpec{Kind: "ref", Ref: j, Op: "delay", EndMode: "bt", EndOff: g.bt + int64(r.Range(0, 20))})
+			}
+		case x < 80:
+			g.add(subSpec{Kind: hlib.Pick(r, []string{"nil", "baddata"}), Op: "delay", EndOff: 3})
+		default:
+			bh := g.h + int64(hlib.Pick(r, []int{1, 1, 1, 2, 3, 0}))
+			if r.Chance(1, 8) && g.h > 2 {
+				bh = g.h - int64(r.Range(1, 2))
+			}
+			var btxs []int
+			for j, sj := range h.Subs {
+				if (sj.Kind == "plain" || sj.Kind == "group") && sj.Op == "" && !g.delayed[j] && r.Chance(1, 4) {
+					btxs = append(btxs, j)
+				}
+			}
+			var cs []subSpec
+			for k := r.Intn(3); k > 0; k-- {
+				s := g.plain(r.Intn(3))
+				if r.Chance(1, 2) {
+					cs = append(cs, commit(s, 0, int64(r.Range(0, 2))))
+				} else {
+					cs = append(cs, commit(s, int64(r.Range(1, 15)), 0))
+				}
+			}
+			g.block(bh, int64(r.Range(0, 12)), int64(r.Range(0, 12)), btxs, cs...)
+		}
+	}
+	return h
+}
